@@ -46,6 +46,9 @@ type mprog struct {
 	Before, After                 []mop
 	Names                         int
 	SecondRestore                 bool
+	K                             int // a second change of the count (0 = none)
+	Perm2                         []int
+	After2                        []mop
 }
 
 var nameGen = []string{"", "a", "ab", "abc", "b", "\x00", "a\x00", "\xff", "zz", "k", "kk", "m"}
@@ -92,6 +95,11 @@ func genMerge(rt *rapid.T) mprog {
 	}
 	p.After = genMops(rt, rapid.IntRange(0, 25).Draw(rt, "nafter"), p.Groups, p.Names, "a", written)
 	p.SecondRestore = rapid.Bool().Draw(rt, "second")
+	if rapid.Bool().Draw(rt, "third") {
+		p.K = rapid.IntRange(1, 4).Draw(rt, "k")
+		p.Perm2 = rapid.SliceOfN(rapid.IntRange(0, 99), 4, 4).Draw(rt, "perm2")
+		p.After2 = genMops(rt, rapid.IntRange(0, 12).Draw(rt, "nafter2"), p.Groups, p.Names, "c", append(written, p.After...))
+	}
 	return p
 }
 
@@ -176,7 +184,7 @@ func execMerge(p mprog, c *hx.Case) error {
 			dbs[i].Delete(k)
 			delete(model, string(k))
 		case "wait":
-			if err := dbs[i].WaitOnTasks(); err != nil {
+			if err := hx.WaitTasks(dbs[i].WaitOnTasks); err != nil {
 				return i, hx.Errf("background task failed: %v", err)
 			}
 		}
@@ -194,7 +202,7 @@ func execMerge(p mprog, c *hx.Case) error {
 		if err != nil {
 			return hx.Errf("checkpoint of old database %d: %v", i, err)
 		}
-		if err := db.WaitOnTasks(); err != nil {
+		if err := hx.WaitTasks(db.WaitOnTasks); err != nil {
 			return hx.Errf("background task failed: %v", err)
 		}
 		handles[i] = h
@@ -306,7 +314,7 @@ func execMerge(p mprog, c *hx.Case) error {
 		}
 	}
 	for _, db := range news {
-		if err := db.WaitOnTasks(); err != nil {
+		if err := hx.WaitTasks(db.WaitOnTasks); err != nil {
 			return hx.Errf("background task failed: %v", err)
 		}
 	}
@@ -321,7 +329,7 @@ func execMerge(p mprog, c *hx.Case) error {
 			if err != nil {
 				return hx.Errf("checkpoint of new database %d: %v", j, err)
 			}
-			if err := db.WaitOnTasks(); err != nil {
+			if err := hx.WaitTasks(db.WaitOnTasks); err != nil {
 				return hx.Errf("background task failed: %v", err)
 			}
 			ndb, err := open(fmt.Sprintf("again%d", j), to[j], []recovery.CheckpointHandle{h})
@@ -334,6 +342,82 @@ func execMerge(p mprog, c *hx.Case) error {
 			return err
 		}
 	}
+	chained := false
+	if p.K > 0 && !p.SecondRestore {
+		// a second change of the count: the new instances are checkpointed, their
+		// handles recorded in another order and K instances opened from them
+		k := p.K
+		hasTables := false
+		for _, f := range fs.List() {
+			if strings.HasSuffix(f, ".sst") {
+				hasTables = true
+			}
+		}
+		if k != p.N && p.M != p.N && hasTables && c.Known("C06-remerge-of-tables-holding-foreign-keys") {
+			// open finding, excluded by construction: tables that hold other ranges'
+			// (stale) keys would be merged or split again
+			c.Label("avoided:C06-remerge-of-tables-holding-foreign-keys")
+			k = p.N
+		}
+		h2 := make([]recovery.CheckpointHandle, len(news))
+		for j, db := range news {
+			h, err := db.Checkpoint(2)()
+			if err != nil {
+				return hx.Errf("checkpoint of new database %d: %v", j, err)
+			}
+			if err := hx.WaitTasks(db.WaitOnTasks); err != nil {
+				return hx.Errf("background task failed: %v", err)
+			}
+			h2[j] = h
+		}
+		idx2 := make([]int, len(to))
+		for i := range idx2 {
+			idx2[i] = i
+		}
+		slices.SortStableFunc(idx2, func(a, b int) int { return p.Perm2[a] - p.Perm2[b] })
+		perm2 := make([]partitioning.KeyGroupRange, len(to))
+		for i, j := range idx2 {
+			perm2[i] = to[j]
+		}
+		to3 := slices.Clone(partitioning.NewKeySpace(p.Groups, k).KeyGroupRanges())
+		assign2 := partitioning.AssignRanges(to3, perm2)
+		third := make([]*dkv.DB, len(to3))
+		for j, r := range to3 {
+			var hs []recovery.CheckpointHandle
+			for _, fi := range assign2[j] {
+				hs = append(hs, h2[idx2[fi]])
+			}
+			db, err := open(fmt.Sprintf("third%d", j), r, hs)
+			if err != nil {
+				return err
+			}
+			third[j] = db
+		}
+		from, perm = to, perm2 // (for the messages)
+		if err := checkAll(third, to3, fmt.Sprintf("right after a second change of the count (%d -> %d -> %d)", p.M, p.N, k)); err != nil {
+			return err
+		}
+		for step, o := range p.After2 {
+			if _, err := apply(third, to3, o); err != nil {
+				return err
+			}
+			if o.Kind != "wait" {
+				if err := checkKey(third, to3, mkey(o), fmt.Sprintf("after step %d following the second change of the count (%s)", step, o.Kind)); err != nil {
+					return err
+				}
+			}
+		}
+		for _, db := range third {
+			if err := hx.WaitTasks(db.WaitOnTasks); err != nil {
+				return hx.Errf("background task failed: %v", err)
+			}
+		}
+		if err := checkAll(third, to3, "after the writes following the second change of the count"); err != nil {
+			return err
+		}
+		chained = k != p.N
+	}
+	c.LabelIf(chained, "chain-of-two-count-changes")
 	sorted := slices.IsSortedFunc(perm, func(a, b partitioning.KeyGroupRange) int { return a.Start - b.Start })
 	c.LabelIf(p.M != p.N, "M!=N")
 	c.LabelIf(!sorted, "non-identity-record-order")
@@ -347,5 +431,5 @@ func execMerge(p mprog, c *hx.Case) error {
 }
 
 func TestPropMergeRestore(t *testing.T) {
-	hx.Run(t, hx.Spec{Prop: "C06", Rule: "the databases under a rescale, without operators: M=1..4 dkv.DB instances own the ranges of NewKeySpace(groups, M) (groups 1..16, memtable 64 B..1 MB, small tables, drawn compaction tuning) and take 1..60 puts/deletes/waits of key-group-prefixed keys with colliding names; each is checkpointed; the handles are recorded in a drawn order and N=1..4 new instances are opened with the handles AssignRanges gives them (LoadCheckpointList merge, ownership-filtered WAL replay, sequence numbers resumed); every key is read through Get and ScanPrefix at its new owner and compared with a map model, 0..25 further writes follow (two in three return to entries written before the checkpoint, the latest first), checked after each and after compactions settled, and in half of the cases every new instance is checkpointed and restored once more; non-trivial = M != N, a table flushed before the checkpoint and a restored key rewritten"}, genMerge, execMerge)
+	hx.Run(t, hx.Spec{Prop: "C06", Persist: true, Rule: "the databases under a rescale, without operators: M=1..4 dkv.DB instances own the ranges of NewKeySpace(groups, M) (groups 1..16, memtable 64 B..1 MB, small tables, drawn compaction tuning) and take 1..60 puts/deletes/waits of key-group-prefixed keys with colliding names; each is checkpointed; the handles are recorded in a drawn order and N=1..4 new instances are opened with the handles AssignRanges gives them (LoadCheckpointList merge, ownership-filtered WAL replay, sequence numbers resumed); every key is read through Get and ScanPrefix at its new owner and compared with a map model, 0..25 further writes follow (two in three return to entries written before the checkpoint, the latest first), checked after each and after compactions settled, and in half of the cases every new instance is checkpointed and restored once more, or (a quarter) checkpointed and restored into a third count K with another record order and further writes (when tables exist this second change is replaced by a same-size restore: open finding); non-trivial = M != N, a table flushed before the checkpoint and a restored key rewritten"}, genMerge, execMerge)
 }
